@@ -307,3 +307,94 @@ Proof.
   - unfold files_abs. cbn [ferr fcur ffs app].
     apply flat_map_ext. intros [|d]; cbn; [reflexivity | apply new_inner_abs].
 Qed.
+
+(* ---- statements about the iterator selected by createInputIter -------------------------------- *)
+Lemma create_top_all : forall m stdin args, top_abs (create_top m stdin args) = all_outs m stdin args.
+Proof. exact create_top_abs. Qed.
+
+Lemma inputs_order_lemma : forall m stdin args k,
+  input_calls top top_next k (create_top m stdin args) = calls_spec k (all_outs m stdin args).
+Proof. intros. rewrite (input_calls_spec top top_next top_abs top_ok). now rewrite create_top_all. Qed.
+
+Lemma plain_mode_lemma : forall m stdin args fuel,
+  (List.length (all_outs m stdin args) < fuel)%nat ->
+  process top top_next fuel (q_id top) (create_top m stdin args) = Some (all_outs m stdin args).
+Proof.
+  intros. rewrite <- create_top_all in *. now apply (process_id_spec top top_next top_abs top_ok).
+Qed.
+
+Lemma slurp_mode_lemma : forall m stdin args fuel,
+  (List.length (all_outs m stdin args) < fuel)%nat -> ~ In OPanic (all_outs m stdin args) ->
+  process (top * bool) (slurp_it top top_next fuel) 2 (q_id _) (create_top m stdin args, false)
+  = Some (process_null top (q_inputs top top_next fuel) (create_top m stdin args)).
+Proof.
+  intros. rewrite <- create_top_all in *.
+  now apply (slurp_eq_inputs_lemma top top_next top_abs top_ok).
+Qed.
+
+Lemma slurp_value_lemma : forall m stdin args fuel,
+  (List.length (all_outs m stdin args) < fuel)%nat ->
+  exists t', slurp_loop top top_next fuel (create_top m stdin args) []
+             = Some (slurp_spec (all_outs m stdin args) [], t').
+Proof.
+  intros. rewrite <- create_top_all in *. now apply (slurp_loop_spec top top_next top_abs top_ok).
+Qed.
+
+(* -Rs *)
+Section SlurpRaw.
+  Variables (I : Type) (inext : I -> option out * I) (abs : I -> list out).
+  Hypothesis ok : iter_ok I inext abs.
+  Lemma slurpraw_loop_spec : forall fuel i acc, (List.length (abs i) < fuel)%nat ->
+    exists i', slurpraw_loop I inext fuel i acc = Some (slurpraw_spec (abs i) acc, i').
+  Proof.
+    induction fuel as [|f IH]; intros i acc L; [lia|].
+    cbn [slurpraw_loop]. pose proof (ok i) as H. destruct (inext i) as [[o|] i'].
+    - rewrite H in *. cbn [List.length] in L. destruct o; cbn [slurpraw_spec]; eauto.
+      destruct (str_of v); eauto. apply IH. lia.
+    - destruct H as [H _]. rewrite H. eauto.
+  Qed.
+End SlurpRaw.
+
+Fixpoint concat_texts (l : list (fsrc fdata)) : option (list N) :=
+  match l with
+  | [] => Some []
+  | FMissing :: _ => None
+  | FData d :: r => option_map (app (ftext d)) (concat_texts r)
+  end.
+
+Lemma slurpraw_all : forall l acc,
+  slurpraw_spec (flat_map (src_outs FAll) l) acc
+  = match concat_texts l with Some t => OVal (vstr (acc ++ t)) | None => OErr end.
+Proof.
+  induction l as [|[|d] r IH]; intros acc; cbn.
+  - now rewrite app_nil_r.
+  - reflexivity.
+  - rewrite IH. destruct (concat_texts r); cbn; [now rewrite app_assoc | reflexivity].
+Qed.
+
+(* -Rs with file operands: one string, the concatenation of the files' texts (or the open error) *)
+Lemma raw_slurp_lemma : forall stdin a args fuel,
+  (List.length (a :: args) < fuel)%nat ->
+  exists t', slurpraw_loop top top_next fuel (create_top (mkmode true false true) stdin (a :: args)) []
+             = Some (match concat_texts (a :: args) with Some t => OVal (vstr t) | None => OErr end, t').
+Proof.
+  intros stdin a args fuel L.
+  pose proof (slurpraw_loop_spec top top_next top_abs top_ok fuel
+                (create_top (mkmode true false true) stdin (a :: args)) []) as H.
+  rewrite create_top_all in H. unfold all_outs, fmt_of in H. cbn [m_raw m_slurp] in H.
+  rewrite slurpraw_all in H. cbn [app] in H. apply H.
+  clear H. revert L. generalize (a :: args). intros l L.
+  assert (E : List.length (flat_map (src_outs FAll) l) = List.length l).
+  { clear. induction l as [|[|d] r IH]; cbn; auto. }
+  rewrite E. exact L.
+Qed.
+
+Lemma raw_slurp_stdin_lemma : forall stdin fuel, (1 < fuel)%nat ->
+  exists t', slurpraw_loop top top_next fuel (create_top (mkmode true false true) stdin []) []
+             = Some (OVal (vstr (ftext stdin)), t').
+Proof.
+  intros stdin fuel L.
+  pose proof (slurpraw_loop_spec top top_next top_abs top_ok fuel
+                (create_top (mkmode true false true) stdin []) []) as H.
+  rewrite create_top_all in H. apply H. cbn. exact L.
+Qed.
